@@ -677,6 +677,24 @@ class Check:
                 info['failing'] = {'file': os.path.relpath(pv, VERIF), 'line': 0, 'statement': 'coqchk', 'message': (o + e)[-800:]}
         return info
 
+    def refresh_for_replay(self):
+        """--replay does not re-check the theorems, but the generated tables and the extracted model must belong to the
+        tree the replay runs on: coq/<comp>/Gen_*.v and model.ml may be left over from a run on another VERIF_REPO.
+        Regenerate the tables and let make rebuild what became stale (nothing, if the tables did not change)."""
+        info = {'ok': True, 'obligations': 0, 'discharged': 0, 'assumptions': {}, 'cmds': [], 'failing': None, 'forbidden': [], 'tables': []}
+        try:
+            info['tables'] = self.gen_tables() or []
+        except TieBroken as e:
+            info['ok'] = False
+            info['failing'] = {'file': 'gen', 'line': 0, 'statement': 'table translator', 'message': str(e)}
+        if self.comp and os.path.exists(os.path.join(COQ, self.comp, '_CoqProject')):
+            ok, logtxt = coq_build_closure(self.comp)
+            if not ok:
+                info['ok'] = False
+                info['failing'] = info['failing'] or first_coq_error(logtxt, self.comp) or \
+                    {'file': 'coq/' + self.comp, 'line': 0, 'statement': '?', 'message': logtxt[-800:]}
+        return info
+
     def build(self):
         """Step 2: model driver + harness from the current tree.  Returns dict with errors."""
         b = {'model_ok': False, 'impl_ok': False, 'errors': []}
@@ -792,7 +810,7 @@ class Check:
         known_printed = []
         ctx = {'violations': violations, 'known': known_printed}
 
-        pr = self.prove(tier) if not replay else {'ok': True, 'obligations': 0, 'discharged': 0, 'assumptions': {}, 'cmds': [], 'failing': None, 'forbidden': [], 'tables': []}
+        pr = self.prove(tier) if not replay else self.refresh_for_replay()
         if not pr['ok']:
             log('[%s] proof side broken: %s' % (self.id, json.dumps(pr['failing'])[:600]))
         b = self.build()
